@@ -8,6 +8,27 @@ ALL = [f"C{i:02d}" for i in range(1, 21)]
 
 # id -> (technique, level text, level note, design ref)
 CHECKS = {
+    "C11": (
+        "bounded exhaustive exploration object x persistence-hop sequence (deviation bound: 1 hop quick, every ordered pair "
+        "thorough) x follow-up operation x execution order, each execution rebuilt from a reset world on the real code; "
+        "differential oracle original vs restored",
+        "Objects: arrays, quantities and Unit objects over a unit alphabet chosen for the identity-sensitive branches (degree, "
+        "lat, degC, delta_degC, mdegC, dB, km, g*cm/s**2, percent, statC, Msun, K/m, dimensionless; 26 units in thorough) in the "
+        "default registry and in five custom registries (added code units, re-defined built-in symbols, a prefixable user "
+        "symbol used with a prefix, an offset temperature symbol and a user angle, a cgs unit-system registry). Hops: pickle "
+        "protocols, pickled containers, copy.copy, copy.deepcopy (plain and inside containers), .copy(), Unit.copy(deep=True), "
+        "np.copy, rebuild from str(units) and repr(units), registry to_json/from_json, savetxt/loadtxt, and two sibling-edit "
+        "hops (the same JSON text / pickle bytes restored twice with the first restoration's registry edited in between). "
+        "After the hops the restored numbers, class, unit (scale, offset, dimension, ==) and the registry's user rows and "
+        "unit system must equal the original's, and each of 28 follow-up operations on quantities (16 on Unit objects) - "
+        "angle-aware sin/cos, offset-temperature and logarithmic guards, sums, products, roots, comparisons, conversions by "
+        "name and to a second unit, in_base/in_cgs/in_mks/galactic, an equivalence, unit algebra - must have the same outcome "
+        "(class, numbers, unit, or the same refusal) on original and restored, with the original run first and with the "
+        "restored run first.",
+        "HDF5 is not exercised (h5py absent). loadtxt cannot carry a registry, so that hop is applied to default-registry "
+        "objects only. Outcomes are compared exactly except through the decimal text of savetxt (1e-12).",
+        "DESIGN.md section 6 C11",
+    ),
     "C13": (
         "explicit-state breadth-first search over interleaved event histories on two custom registries and the default "
         "registry, executed on the real code (world reset + replay per state, canonical state digest), with a per-registry "
